@@ -149,6 +149,44 @@ func NewEnv() *Env {
 
 func (e *Env) modAddr(name string) sdk.AccAddress { return authtypes.NewModuleAddress(name) }
 
+// The harness reads the parameter sets straight from the x/params subspaces, not through the module keepers' getters:
+// an observation must not run module code (a getter with a side effect -- a cache refreshed on read -- would be masked
+// by the harness's own reads: found with seed C10_3).
+func (e *Env) subspace(name string) paramstypes.Subspace {
+	if e.ap != nil {
+		ss, ok := e.ap.app.ParamsKeeper.GetSubspace(name)
+		if !ok {
+			panic("unknown subspace " + name)
+		}
+		return ss
+	}
+	ss, ok := e.pk.GetSubspace(name)
+	if !ok {
+		panic("unknown subspace " + name)
+	}
+	return ss
+}
+func (e *Env) provParams(ctx sdk.Context) (p providertypes.Params) {
+	e.subspace("vpn/provider").GetParamSet(ctx, &p)
+	return
+}
+func (e *Env) nodeParams(ctx sdk.Context) (p nodetypes.Params) {
+	e.subspace("vpn/node").GetParamSet(ctx, &p)
+	return
+}
+func (e *Env) subParams(ctx sdk.Context) (p subscriptiontypes.Params) {
+	e.subspace("vpn/subscription").GetParamSet(ctx, &p)
+	return
+}
+func (e *Env) sessParams(ctx sdk.Context) (p sessiontypes.Params) {
+	e.subspace("vpn/session").GetParamSet(ctx, &p)
+	return
+}
+func (e *Env) swapParams(ctx sdk.Context) (p swaptypes.Params) {
+	e.subspace("swap").GetParamSet(ctx, &p)
+	return
+}
+
 // InitGenesis writes the genesis described by g through the modules' own InitGenesis.
 func (e *Env) InitGenesis(g *Genesis) {
 	if e.ap != nil {
